@@ -441,6 +441,22 @@ def c08(tier='quick'):
                 for k in (n, -n - 1):
                     body = pre + [Let('r', ety, Index(a, Lit(k, I32))), Return(Cast(Var('r', ety), I64))]
                     out.append(Template('c08/lit_oob/%s/m%d_p%d/%d' % (ety.name, m, p, k), fn3(body), family='c08-literal-index', expect='any'))
+    # appends executed in a loop: the run-time length is literal length + trip count, not + number of append sites
+    DT = DynT(I32)
+    a = Var('a', DT)
+    for trips in (2, 3):
+        n = 3 + trips
+        loop = [Let('a', DT, ArrLit(DT, [Cast(X, I32), Lit(20, I32), Lit(30, I32)])), Let('i', I32, Lit(0, I32)),
+                While(Cmp('<', Var('i', I32), Lit(trips, I32)), [Append(a, Bin('+', Lit(100, I32), Var('i', I32))), IncDec(Var('i', I32), '++')])]
+        for k in sorted({n - 1, -n, 3}):
+            body = loop + [Let('r', I32, Index(a, Lit(k, I32))), Return(Cast(Var('r', I32), I64))]
+            out.append(Template('c08/loop_append_lit_read/t%d/%d' % (trips, k), fn3(body), family='c08-loop-append', unroll=trips + 2))
+        body = loop + [Assign(Index(a, Lit(n - 1, I32)), Cast(Y, I32)), Let('r', I32, Index(a, Lit(-1, I32))), Return(Cast(Var('r', I32), I64))]
+        out.append(Template('c08/loop_append_lit_write/t%d' % trips, fn3(body), family='c08-loop-append', unroll=trips + 2))
+        body = loop + [Let('r', I32, Index(a, Cast(Z, I32))), Return(Cast(Var('r', I32), I64))]
+        out.append(Template('c08/loop_append_read/t%d' % trips, fn3(body), family='c08-loop-append', unroll=trips + 2))
+        body = loop + [Let('r', I32, Index(a, Lit(n, I32))), Return(Cast(Var('r', I32), I64))]
+        out.append(Template('c08/loop_append_lit_oob/t%d' % trips, fn3(body), family='c08-loop-append', expect='any', unroll=trips + 2))
     # print before panic: the line must be part of the trace before the panic event
     DT = DynT(I32)
     a = Var('a', DT)
